@@ -41,6 +41,9 @@ pub enum Op {
     ParseBytes(String),
     /// start_list / add_to_list* / end_list; `keyed` wraps each item in a pair keyed by a distinct symbol
     MakeList(Vec<usize>, bool),
+    /// a list whose items are plain (None) or wrapped in a pair keyed by the given raw symbol value, in
+    /// any order: keyed items behind plain ones, keys at the ends of the symbol value range, repeated keys
+    MakeMixedList(Vec<(usize, Option<u64>)>),
     MergeSymbols(u64, u64, Option<u64>),
     PushRegister(usize),
     PopRegister,
@@ -256,6 +259,38 @@ fn apply<D: SimData>(d: &mut D, m: &mut Model, op: &Op, out: &mut Outcome) -> Ap
             let addr = tryq!(d.end_list(l), "end_list");
             added!(addr, Val::List(vals));
             out.probe("list-built");
+        }
+        Op::MakeMixedList(sels) => {
+            let mut items: Vec<usize> = vec![];
+            let mut vals: Vec<Val> = vec![];
+            for (s, key) in sels.iter() {
+                let Some(a) = m.pick(*s) else { return Applied::Skipped };
+                match key {
+                    Some(sym) => {
+                        let k = tryq!(d.add_symbol(*sym), "add_symbol");
+                        added!(k, Val::Sym(*sym));
+                        let p = tryq!(d.add_pair((k, a)), "add_pair");
+                        let pv = Val::pair(Val::Sym(*sym), m.vals[&a].clone());
+                        added!(p, pv.clone());
+                        items.push(p);
+                        vals.push(pv);
+                    }
+                    None => {
+                        items.push(a);
+                        vals.push(m.vals[&a].clone());
+                    }
+                }
+            }
+            if vals.iter().map(|v| v.size()).sum::<usize>() > 400 {
+                return Applied::Skipped;
+            }
+            let mut l = tryq!(d.start_list(items.len()), "start_list");
+            for a in &items {
+                l = tryq!(d.add_to_list(l, *a), "add_to_list");
+            }
+            let addr = tryq!(d.end_list(l), "end_list");
+            added!(addr, Val::List(vals));
+            out.probe("mixed-list-built");
         }
         Op::MergeSymbols(a, b, c) => {
             let x = tryq!(d.add_symbol(*a), "add_symbol");
@@ -623,7 +658,7 @@ fn execute_in<D: SimData>(sc: &Sc15) -> Outcome {
                 if grown.iter().any(|g| *g < 4) && (m.order.len() > 0) {
                     out.probe("early-block-grew-while-data-block-holds-values");
                 }
-                if grown.contains(&4) && matches!(op, Op::MakeList(_, _)) {
+                if grown.contains(&4) && matches!(op, Op::MakeList(_, _) | Op::MakeMixedList(_)) {
                     out.probe("data-block-grew-inside-list-construction");
                 }
                 if grown.contains(&4) && matches!(op, Op::PushFrame(_)) {
@@ -682,14 +717,19 @@ fn gen_op(rng: &mut Rng, basic: bool) -> Op {
         0 => Op::AddUnit,
         1 => Op::AddTrue,
         2 => Op::AddFalse,
-        3 => Op::AddInt(rng.range_i(-3, 40) as i32),
+        3 => Op::AddInt(if rng.chance(1, 12) { *rng.pick(&[i32::MIN, i32::MIN + 1, i32::MAX, i32::MAX - 1, -1]) } else { rng.range_i(-3, 40) as i32 }),
         4 => Op::AddFloat((rng.below(40) as f64 / 8.0).to_bits()),
         5 => Op::AddType(rng.range(1, 20) as u8),
-        6 => Op::AddChar(*rng.pick(&['a', 'b', 'z', 'é'])),
-        7 => Op::AddByte(rng.below(5) as u8),
-        8 => Op::AddSymbol(symbol_value(*rng.pick(&["sa", "sb", "sc", "sd"]))),
-        9 => Op::AddExpression(rng.below(6)),
-        10 => Op::AddExternal(rng.below(6)),
+        6 => Op::AddChar(*rng.pick(&['a', 'b', 'z', 'é', '\0', '\u{10FFFF}', '\u{7f}', '\u{80}'])),
+        7 => Op::AddByte(if rng.chance(1, 6) { *rng.pick(&[255u8, 254, 128, 127]) } else { rng.below(5) as u8 }),
+        8 => Op::AddSymbol(if rng.chance(1, 5) {
+            // raw symbol values no name hashes to: the ends of the value range
+            *rng.pick(&[0u64, 1, u64::MAX, u64::MAX - 1, 1u64 << 63, (1u64 << 63) - 1])
+        } else {
+            symbol_value(*rng.pick(&["sa", "sb", "sc", "sd"]))
+        }),
+        9 => Op::AddExpression(if rng.chance(1, 10) { *rng.pick(&[usize::MAX, usize::MAX - 1, 1usize << 32]) } else { rng.below(6) }),
+        10 => Op::AddExternal(if rng.chance(1, 10) { *rng.pick(&[usize::MAX, usize::MAX - 1, 1usize << 32]) } else { rng.below(6) }),
         11 => Op::AddPair(rng.below(1000), rng.below(1000)),
         12 => Op::AddConcat(rng.below(1000), rng.below(1000)),
         13 => Op::AddRange(rng.below(1000), rng.below(1000)),
@@ -710,7 +750,13 @@ fn gen_op(rng: &mut Rng, basic: bool) -> Op {
         19 => Op::ParseBytes(rng.pick(&["a", "bc", "wxyz"]).to_string()),
         20 => {
             let n = rng.range(0, 5);
-            Op::MakeList((0..n).map(|_| rng.below(1000)).collect(), rng.chance(1, 3))
+            if rng.chance(1, 4) {
+                let n = rng.range(1, 6);
+                let keys = [0u64, 1, u64::MAX, u64::MAX - 1, 1u64 << 63, symbol_value("lk0"), symbol_value("lk1"), symbol_value("sa")];
+                Op::MakeMixedList((0..n).map(|_| (rng.below(1000), if rng.chance(3, 5) { Some(*rng.pick(&keys)) } else { None })).collect())
+            } else {
+                Op::MakeList((0..n).map(|_| rng.below(1000)).collect(), rng.chance(1, 3))
+            }
         }
         21 => Op::MergeSymbols(symbol_value("ma"), symbol_value(*rng.pick(&["mb", "mc"])), if rng.chance(1, 2) { Some(symbol_value("md")) } else { None }),
         22 => {
